@@ -74,7 +74,10 @@ func pricePart(c *xs.Ctx, r *xs.Result, ri int, only *priceReplay) {
 		r.Add("nontrivial", "price:"+name)
 	})
 	if msg != "" {
-		panic("harness: price part: " + msg)
+		// whether a regime can be reached is C09's and C17's question; without it this part has nothing to say
+		r.Note("price part, regime %s not explored: %s", regime, msg)
+		r.Incomplete = true
+		return
 	}
 	r.Count("price_regimes", 1)
 }
